@@ -134,7 +134,7 @@ def reviewed : List Exc := [
   ⟨9919411282091793803, "pkg/slicex/slicex.go:Prepend:slice:result[len(elements):]", "result is made with len(elements)+len(items)"⟩,
   ⟨1642008543236372384, "pkg/slicex/slicex.go:restoreType:reflectV:result.Index×2", "result = MakeSlice(typ, len(items), …) and i ranges over items; Set follows AssignableTo / ConvertibleTo"⟩,
   ⟨5597443578259963610, "pkg/slicex/slicex.go:restoreType:reflectV:result.Interface", "result is a reflect.MakeSlice value: valid, Interface() cannot panic"⟩,
-  ⟨4987597108630062885, "pkg/slicex/slicex.go:restoreType:reflectV:rv.Type×2", "NOT GUARDED: a nil element in a named non-[]any slice type would panic; the library only passes []any here (early return two lines above); utility API outside Parse"⟩,
+  ⟨4987597108630062885, "pkg/slicex/slicex.go:restoreType:reflectV:rv.Type×2", "DEFECT of the utility API, not of Parse: slicex.Unique(L{nil,1}) with type L []any panics 'call of reflect.Value.Type on zero Value' (a nil element of a named slice type); unreachable from Parse - the library passes []any only (creators.go, locales), which returns two lines above; not a violation of C04 (observation recorded in notes/C04.md)"⟩,
   ⟨6440432852034397972, "pkg/structx/structx.go:ToMap:reflectV:t.NumField×2", "structValue(input) returned ok: the value is a struct"⟩,
   ⟨11075545956014661684, "pkg/structx/structx.go:setField:reflectV:dst.Set×2", "under AssignableTo / ConvertibleTo cases; dst is field i of a freshly built struct value (unexported fields are skipped before)"⟩,
   ⟨8866733611631987693, "pkg/structx/structx.go:setField:reflectV:src.Type×2", "caller passes reflect.ValueOf of a non-nil map value (nil is skipped before)"⟩,
@@ -203,7 +203,7 @@ def reviewed : List Exc := [
   ⟨13896527355247458417, "types/object.go:convertToObjectConstraintType:reflectV:reflect.ValueOf(&result).Elem", "pointer to a local variable: never nil"⟩,
   ⟨16576101523757870107, "types/object.go:newZodObjectFromDef:assert:any(newZodObjectFromDef[T, R](objectDef)).(core.ZodType[any])", rCtor⟩,
   ⟨17826777039137614849, "types/record.go:ZodRecord.validateRecord:index:seenKeys[k]", "seenKeys is a made map[string]bool: a map read"⟩,
-  ⟨14611183956009712257, "types/record.go:ZodRecord.validateRecordValue:reflectV:valValue.Type", "NOT GUARDED: values were read back from the typed map through MapIndex(..).Interface() and re-validated; a member schema returning an untyped nil for a typed element would panic; run-covered (typed Record x nil / nilable values), no witness found"⟩,
+  ⟨14611183956009712257, "types/record.go:ZodRecord.validateRecordValue:reflectV:valValue.Type", "not guarded syntactically; a nil here needs a member schema that answers an untyped nil for a typed element: probed typed records map[string]*int / map[string][]int with value schemas Any().Nilable(), Unknown().Optional(), Nil(), Nil().Optional(), UnionPtr, Lazy(Nil) on nil elements - none reaches it (values come back typed through MapIndex(..).Interface(), a nil-returning schema keeps the typed nil); no witness; run-covered by the typed Record constructors x nil-class values"⟩,
   ⟨13404946161255439264, "types/record.go:ZodRecord.validateValue:reflectT:methodType.NumIn", "Type of a valid Parse method: a func type"⟩,
   ⟨4962461954379153188, "types/record.go:extractRecordValue:assert:any(value).(T)", rGeneric⟩,
   ⟨6790997909822587331, "types/record.go:newZodRecordFromDef:assert:any(newZodRecordFromDef[T, R](recordDef)).(core.ZodType[any])", rCtor⟩,
@@ -220,7 +220,7 @@ def reviewed : List Exc := [
   ⟨3895583615419284684, "types/stringbool.go:newZodStringBoolFromDef:assert:any(newZodStringBoolFromDef[T](sd)).(core.ZodType[any])", rCtor⟩,
   ⟨12128952830361537759, "types/struct.go:ZodStruct.convertSliceTypes:reflectV:newSlice.Index", "newSlice = MakeSlice(targetType, sourceVal.Len(), …), i ranges over sourceVal.Len()"⟩,
   ⟨17656294653292948164, "types/struct.go:ZodStruct.convertSliceTypes:reflectV:newSlice.Interface", "newSlice is a reflect.MakeSlice value: valid, Interface() cannot panic"⟩,
-  ⟨3950381326064745233, "types/struct.go:ZodStruct.convertValue:assert:value.(string)", "NOT GUARDED by type: Kind()==String also holds for named string types (value.(string) would panic for type S string); run-covered by the struct stream (named-type fields)"⟩,
+  ⟨3950381326064745233, "types/struct.go:ZodStruct.convertValue:assert:value.(string)", "Kind()==String also holds for named string types; probed Struct[struct{A string}]{A: Any()}.Parse({a: MyStr(\"x\")}): converted ({x}), no panic - the named value takes the reflect Convert path before this branch; no witness; run-covered by the struct stream (named-type fields)"⟩,
   ⟨11002935487131420682, "types/struct.go:ZodStruct.convertValue:reflectV:reflect.Zero(targetType)", "targetType is the Type of a struct field / map or slice element: non-nil"⟩,
   ⟨18165676809109461455, "types/struct.go:ZodStruct.convertValue:reflectV:reflect.Zero(targetType).Interface", "reflect.Zero of a non-nil type is a valid Value"⟩,
   ⟨5014509530207752724, "types/struct.go:ZodStruct.getStructFieldValue:reflectT:structType.Field", "i ranges over val.NumField() of the same struct"⟩,
